@@ -336,6 +336,44 @@ func c14Check(c statCase) (v vcase.Verdict) {
 			smp := benchmath.NewSample(append([]float64(nil), cell.vals...), th)
 			stats[key] = stat{assume.Summary(smp, conf), smp}
 		}
+		// independent of benchmath: the printed center is the mode (exact units) or the
+		// median (otherwise) of the expected sample
+		for key, cell := range tb.cells {
+			gc, ok := gt.Cells[[2]int{rowIdx[key[0]], colIdx[key[1]]}]
+			if !ok {
+				continue
+			}
+			var center float64
+			if _, err := fmt.Sscan(gc[0], &center); err != nil {
+				fail("table %s: center %q is not a number", k, gc[0])
+				return
+			}
+			srt := append([]float64(nil), cell.vals...)
+			sort.Float64s(srt)
+			if assume == benchmath.AssumeExact {
+				cnt, best := map[float64]int{}, 0
+				for _, x := range srt {
+					cnt[x]++
+					if cnt[x] > best {
+						best = cnt[x]
+					}
+				}
+				if cnt[center] != best {
+					fail("table %s: cell (row %q, column %q) center %v occurs %d times in %v, the most frequent value occurs %d times", k, tb.rows[key[0]].Label(), tb.cols[key[1]].Vals, center, cnt[center], srt, best)
+					return
+				}
+			} else {
+				n := len(srt)
+				med := srt[n/2]
+				if n%2 == 0 {
+					med = srt[n/2-1]/2 + srt[n/2]/2
+				}
+				if math.Abs(center-med) > 4*0x1p-52*math.Max(math.Abs(srt[0]), math.Abs(srt[n-1])) {
+					fail("table %s: cell (row %q, column %q) center %v, median of %v is %v", k, tb.rows[key[0]].Label(), tb.cols[key[1]].Vals, center, srt, med)
+					return
+				}
+			}
+		}
 		for key, cell := range tb.cells {
 			ncells++
 			gc, ok := gt.Cells[[2]int{rowIdx[key[0]], colIdx[key[1]]}]
